@@ -974,8 +974,20 @@ func (m *lfsModule) handleHTTPUploadComplete(w http.ResponseWriter, r *http.Requ
 		return
 	}
 
+	// The envelope describes every uploaded byte, so the object must be
+	// assembled from every uploaded part, each exactly once.
+	if len(req.Parts) != len(session.Parts) {
+		m.lfsWriteHTTPError(w, requestID, session.Topic, http.StatusBadRequest, "invalid_part", "part list does not match uploaded parts")
+		return
+	}
+	listed := make(map[int32]bool, len(req.Parts))
 	completed := make([]types.CompletedPart, 0, len(req.Parts))
 	for _, part := range req.Parts {
+		if listed[part.PartNumber] {
+			m.lfsWriteHTTPError(w, requestID, session.Topic, http.StatusBadRequest, "invalid_part", "part listed twice")
+			return
+		}
+		listed[part.PartNumber] = true
 		etag, ok := session.Parts[part.PartNumber]
 		if !ok || etag == "" || part.ETag == "" || etag != part.ETag {
 			m.lfsWriteHTTPError(w, requestID, session.Topic, http.StatusBadRequest, "invalid_part", "part etag mismatch")
